@@ -139,6 +139,9 @@ func runRaceProgram(res *Result) {
 		dir = "/verif"
 	}
 	hdir := filepath.Join(dir, "harness")
+	if h := os.Getenv("VERIF_HARNESS_DIR"); h != "" {
+		hdir = h
+	}
 	tmp, err := os.MkdirTemp("", "verif-c14-")
 	if err != nil {
 		res.Extra["race"] = "cannot create temp dir: " + err.Error()
